@@ -190,6 +190,7 @@ def run(ctx: Ctx, rep: Report) -> None:
     rep.rule("C02-R2", "GETBULK responses are refused iff they hold more than N + M*R bindings (RFC 3416)", floor=30)
     rep.rule("C02-R3", "non-repeaters / max-repetitions sent agree with the OID lists, the response split and the caller's bulk size", floor=3)
     rep.rule("C02-R4", "the endOfMibView cut-off is a suffix cut", floor=1)
+    rep.rule("C02-R6", "the pythonic walk methods hand the caller's roots, bulk size and options to the raw walks one-to-one (shared with C15-R4)", floor=2)
     rep.rule("C02-R5", "the walk loop shared with the GETNEXT walk satisfies C01 R1-R8 (filter, delivery, regrouping, sortedness, continuation, markers, order)", floor=25)
     rep.assumptions += [
         "C01's rules hold for the shared loop (checked by the C01 command; the bulk fetcher is included in its fetcher set)",
@@ -214,6 +215,7 @@ def run(ctx: Ctx, rep: Report) -> None:
     c01.check_end_signals(ctx, sub, wm)
     rep.adopt(sub, "C02-R5")
     rep.adopt_rules(ctx.sub_run("c03", rep), "C02-R5", ["C03-R2", "C03-R3"])
+    rep.adopt_rules(ctx.sub_run("c15", rep), "C02-R6", ["C15-R4"], containing="walk")
 
 
 def check_bulk_fetch(ctx: Ctx, rep: Report, wm: WalkModel, r0: str = "C02-R0", r1: str = "C02-R1", r4: str = "C02-R4") -> None:
@@ -428,6 +430,14 @@ def check_bulk_builder(ctx: Ctx, rep: Report, wm: WalkModel, r2: str, r3: str) -
         # if the fetcher calls the public bulkget, its arguments reach the builder unchanged (checked by name binding of bulkget)
     rep.check(okf, r3, f.site(), "the bulk fetcher sends no scalars, its OID list as repeaters and the configured bulk size as max-repetitions", detail, key=f"{f.key}|fetcher-args")
 
+    # the PDU class carries these counters and OIDs to the wire unchanged (whatever their size, duplicates included)
+    from .c05 import bulk_by_evaluation
+
+    bulk_bytes = bulk_cls.methods.get("__bytes__")
+    if bulk_bytes is not None:
+        sub = Report(rep.prop, rep.tier)
+        if bulk_by_evaluation(ctx, sub, bulk_cls, bulk_bytes):
+            rep.adopt(sub, r3)
 
 
 def concat_kind(expr: ast.AST, scalar_p: str, rep_p: str) -> Optional[bool]:
